@@ -240,6 +240,7 @@ def _obs():
     return obs
 
 
+PREFLIGHT = ['vp.doubles.conformance:symdf_conformance']
 OBLIGATIONS = _obs()
 ASSUMPTIONS = ['symdf contract (vp/doubles/symdf.py), checked against real pandas by the conformance pass',
                'with rex on, rexpy.extract is replaced by a stub whose expressions match by assumption (C03 decides '
